@@ -26,7 +26,7 @@ PROPS = {
                 gen=parse_family('C01', 3000, 40000), flavours=['c', 'c-weak'],
                 rule='random grammars (1-5 nonterminals, nullable/recursive/ambiguous/error shapes) x sampled sentences, prefixes, mutations, random strings; every input parsed at lookahead 0,1,2 with random one_parse/cost and recovery on/off; non-trivial = distinct case text with at least one judged parse',
                 assumptions=COMMON_ASSUME + ['accepts_iff_sentence is proved for the level-0/1 model and accepts2_iff_sentence for the level-2 model, for every grammar readGrammar accepts (Props/Accepted.lean); recovery-on runs of non-sentences are judged by the recovery model; the set construction of build_new_set / expand_new_start_set / set_insert (start, derived and initial situations, cores shared by start situations) is modelled step for step at levels 0/1 (Model/BuildSet.lean) and proved to compute the abstract sets (buildPLC_eq_buildPL, acceptsC_iff_sentence); the tie compares the situations of every set with multiplicity, their order is only counted']),
-    'C02': dict(level='proof', theorem_modules=['C02', 'Accepted', 'MakeParse', 'MakeParseSound', 'BuildSet'], min_theorems=30, tags=['C02'], crash_counts=True,
+    'C02': dict(level='proof', theorem_modules=['C02', 'Accepted', 'MakeParse', 'MakeParseSound', 'BuildSet', 'LaIndep2'], min_theorems=30, tags=['C02'], crash_counts=True,
                 gen=parse_family('C02', 3000, 40000), flavours=['c', 'c-weak'],
                 rule='random grammars with random translations (permuted, partial, nil-padded, pass-through, empty); sentences <= 7 tokens; one_parse=1 cost=0; tree compared with the enumerated translations of all derivations',
                 assumptions=COMMON_ASSUME + ['enumeration capped at 3000 derivations per input and 9 tokens (depth_bound: the enumerator is complete for every accepted grammar)', 'C02 is a theorem about the step-for-step models: for every grammar readGrammar accepts and every sentence, the model of make_parse in one-parse mode, run on the parse list of the model of build_pl (levels 0/1), ends within an explicit fuel bound with a table without ALT node that denotes exactly the translation of a derivation of the input, TERM nodes carrying code and position of their tokens (accepted_makeParse_one, makeParse_one_sound, makeParse_one_total, makeParse_one_terms); the two step models are tied to the C code on every parse (identical exports)']),
@@ -42,7 +42,7 @@ PROPS = {
                 gen=parse_family('C06', 3000, 40000, maxlen=9), flavours=['c'],
                 rule='grammars with and without error rules; non-sentences (mutated sentences, prefixes, random strings); recovery off (exact argument tuple) and on (well-formedness of every callback, strictly increasing error tokens, first error token = model)',
                 assumptions=COMMON_ASSUME + ['firstError_iff_viable / firstError2_iff_viable need every nonterminal productive (strict grammars); callback theorems hold for every accepted grammar and input from the explicit fuel recoveryFuel on (Props/RecoveryAccepted: accepted_calls_wf, accepted_first_call)']),
-    'C07': dict(level='proof', theorem_modules=['C07', 'C06', 'C02', 'RecoveredParse', 'RecoveryAccepted', 'RecoveredCost'], min_theorems=12, tags=['C07'], crash_counts=True,
+    'C07': dict(level='proof', theorem_modules=['C07', 'C06', 'C02', 'RecoveredParse', 'RecoveryAccepted', 'RecoveredCost', 'RecoveredRelease'], min_theorems=12, tags=['C07'], crash_counts=True,
                 gen=lambda seed, tier: parse_family('C07', 3000, 40000, maxlen=9)(seed, tier) + [c for c in long_c09_cases(seed, 'quick') if 'farback' in c[0]], flavours=['c', 'c-weak'],
                 rule='grammars with 0..3 error rules, non-sentences <= 9 tokens, recovery_match 1..5, one/all parses, lookahead 0-2: return code, non-NULL tree, tree vs translations of the repaired input (read off the model parse list), ignored-token accounting, callbacks and final parse list vs the step-for-step recovery model',
                 assumptions=COMMON_ASSUME + ['the recovery search is proved to finish within recoveryFuel (exponential in the input length, finding D28) and recovered_parse_one / recovered_parse_all take that fuel; theorems with the hypothesis r.ok hold for any smaller fuel on which the search happened to finish', 'after a recovery the all-parses forest is sound but may be incomplete (finding D9), as without recovery']),
@@ -50,7 +50,7 @@ PROPS = {
                 gen=parse_family('C08', 3000, 40000, maxlen=9), flavours=['c'],
                 rule='grammars with error rules, non-sentences <= 9 tokens, recovery_match 1..5, lookahead 0-2: the number of tokens the first callback reports ignored vs the minimum over all simple recoveries (back position with `. error` x forward skip) computed by brute force from the statement over the model sets',
                 assumptions=COMMON_ASSUME + ['recover_minimal is proved for the recovery model; accepted_recover_minimal removes the hypothesis r.ok for every accepted grammar from the explicit fuel recoveryFuel on; the oracle simpleRecoveryCosts is the property statement itself']),
-    'C09': dict(level='proof', theorem_modules=['C09', 'C09Lookahead', 'C01', 'BuildSet2', 'LaIndep'], min_theorems=12, tags=['C09'], crash_counts=True,
+    'C09': dict(level='proof', theorem_modules=['C09', 'C09Lookahead', 'C01', 'BuildSet2', 'LaIndep', 'LaIndep2'], min_theorems=12, tags=['C09'], crash_counts=True,
                 gen=lambda seed, tier: parse_family('C09', 2400, 30000)(seed, tier) + long_c09_cases(seed, tier) +
                                        gen.gen_parse_cases(seed + 5, 3000 if tier == 'thorough' else 500, 'C09', maxlen=9, kind='recov-cache', force=dict(rec=1)) +
                                        gen.gen_parse_cases(seed + 6, 1500 if tier == 'thorough' else 150, 'C09', maxlen=9, kind='stmt-list'), flavours=['c', 'c-weak'],
@@ -91,7 +91,7 @@ PROPS = {
                 assumptions=['partial by nature: absence of sanitizer reports on the explored inputs, not a proof of memory safety of the pointer code',
                              'Lean carries only the decision logic behind bounds (recovery index arithmetic is validated by the C06/C07 checks, containers by C19)'],
                 technique='sanitizer-instrumented exploration driven by the same generators; Lean theorems only for the modelled index/bounds logic (partial)'),
-    'C13': dict(level='proof', theorem_modules=['C13', 'PruneC', 'HeapWf', 'NoGarbage'], min_theorems=24, tags=['C13'], crash_counts=True,
+    'C13': dict(level='proof', theorem_modules=['C13', 'PruneC', 'HeapWf', 'NoGarbage', 'RecoveredRelease'], min_theorems=24, tags=['C13'], crash_counts=True,
                 gen=lambda seed, tier: gen.gen_history_cases(seed, 4000 if tier == 'thorough' else 1000) +
                                        gen.gen_parse_cases(seed + 7, 6000 if tier == 'thorough' else 1500, 'C13'), flavours=['c', 'c-weak'],
                 rule='every caller-side parse_alloc / parse_free / termcb event of every parse is logged with block ids: frees must hit live blocks of the same parse exactly once, everything reachable from the root must lie in live blocks (walk before and after yaep_free_grammar under ASan with real frees), yaep_free_tree must release all blocks of the parse and call termcb once per TERM node; definitions are handed over as heap copies that are scribbled and freed right after the defining call',
@@ -111,7 +111,7 @@ PROPS = {
                              'which blocks the longjmp unwinding leaks is not judged (leaks are reported as statistics only); partial: memory effects are runtime truth (ASan)',
                              'Lean: Model/Api.lean + apiStep_local (other objects unaffected); the judge applies it to histories with injected failures'],
                 technique='exhaustive single-fault enumeration over allocation indices, judged by the Lean API model'),
-    'C18': dict(level='exploration', theorem_modules=['C18', 'BuildSet', 'BuildSet2'], min_theorems=18, tags=['C18'], crash_counts=True, runner=None, flavours=['c'],
+    'C18': dict(level='exploration', theorem_modules=['C18', 'BuildSet', 'BuildSet2', 'C18Etf'], min_theorems=18, tags=['C18'], crash_counts=True, runner=None, flavours=['c'],
                 rule='left-recursive list, E/T/F arithmetic and the 200-rule ANSI C grammar of test41.c on the tokens of test/test.i (the repo lexer ansic.l), input lengths 1k..16k/32k (thorough: ..512k) doubling, lookahead 0,1,2: bytes requested from the allocator during yaep_parse, hash searches, unique situations / set cores / distance vectors / sets / triples must grow by at most a calibrated factor per doubling (bytes 2.6, searches 3.5, ...), at most 4 hash collisions per search, never more unique sets than tokens, goto-cache hits do not shrink; the same counters after make_parse in the all-parses and cost configurations; on random grammars and short inputs the numbers of unique set cores, distance vectors and sets equal those of the step-for-step Lean model of set_insert (identical sets are found again, not rebuilt); non-trivial = a (family, lookahead, n -> 2n) pair with both measurements',
                 assumptions=['measured, not proved: hash distribution, allocator behaviour and wall time are outside any model; thresholds calibrated on the unchanged tree with head-room',
                              'hash collisions are judged per search (<= 4 collisions per search + 1000): their growth at small sizes is table warm-up, not superlinear work'],
